@@ -86,6 +86,7 @@ void vreach(const char* tag) { printf("REACH %s\n", tag); }
 void vout(double a, const char* tag, int k) { printf("OUT %s %d ", tag, k); hex(a); printf(" %.17g\n", a); }
 void vout_int(int a, const char* tag, int k) { printf("OUTI %s %d %d\n", tag, k, a); }
 int vis_symbolic() { return 0; }
+extern "C" double vpi(void) { return 3.14159265358979323846; }   // harness/vpi.h
 #ifdef _OPENMP
 void vset_threads(int n) { omp_set_num_threads(n); }
 #else
